@@ -180,7 +180,9 @@ C15Lab == { LabSrv("udp", 2, 63), LabSrv("icmp", 1, 2) }
 Re(x, i) == [x EXCEPT !.id = "C12/lab/" \o ToString(i), !.label = "real_capture_path/" \o @]
 C12Lab == { Re(Lab6("icmp", 1, {}, FALSE), 1), Re(Lab6("udp", 2, {}, FALSE), 2), Re(Lab(<<"udp", "">>, 2, "closed", {}, 1, 1, FALSE), 3),
             Re(Lab(<<"icmp", "">>, 1, "closed", {}, 1, 1, FALSE), 4), Re(Lab(<<"tcp", "syn">>, 2, "open", {}, 1, 1, FALSE), 5),
-            Re(Lab(<<"tcp", "sack">>, 2, "open", {}, 1, 1, FALSE), 6) }
+            Re(Lab(<<"tcp", "sack">>, 2, "open", {}, 1, 1, FALSE), 6),
+            \* a multi-homed tracer whose answers come back over another interface than the probes left through
+            Re(LabAsym(<<"tcp", "syn">>, 2, FALSE), 7), Re(LabAsym(<<"udp", "">>, 2, FALSE), 8), Re(LabAsym(<<"tcp", "sack">>, 2, FALSE), 9) }
 
 LabGen == IF "VT_GEN" \in DOMAIN IOEnv THEN IOEnv.VT_GEN ELSE "C13"
 LabCases == IF LabGen = "C08" THEN C08Lab ELSE IF LabGen = "C12" THEN C12Lab ELSE IF LabGen = "C15" THEN C15Lab ELSE IF LabGen = "C17" THEN C17Lab ELSE All \cup Extra \cup CliAll \cup MoreC13
